@@ -1,4 +1,5 @@
 import HdModel.Spec.Sni
+import HdModel.Model.TlsInfo
 /-! # C20 — SNI validation forwards a request only if its host is the TLS server name
 
 Theorems about `Hd.Sni.handle` (mirror of `sni::handle`) for **every** request: every combination
@@ -82,3 +83,119 @@ example :
   simp [specNamed, sameName]
 
 end Hd.Sni
+
+
+/-! ## The TLS information reaches every request of the connection
+
+`ValidateSNI` decides on the `TlsConnectionInfo` it finds in the request; a request without one is taken for a
+request on a connection without TLS and forwarded unchecked. The information travels from the acceptor to the
+requests through the channel modelled in `Model/TlsInfo.lean`: for **every** interleaving of requests asking
+(`new`/`poll`), requests being cancelled (`drop`) and the acceptor's `send`, no request on a TLS connection is
+ever told "no TLS". -/
+namespace Hd.TlsInfo
+
+@[simp] theorem setPhase_ch (s : St) (i : Nat) (p : Phase) : (setPhase s i p).ch = s.ch := rfl
+
+@[simp] theorem release_ch : ∀ (fuel : Nat) (s : St), (release fuel s).ch = s.ch
+  | 0, _ => rfl
+  | fuel + 1, s => by
+    unfold release
+    split
+    · rfl
+    · split
+      · rfl
+      · split
+        · rw [release_ch fuel]; rfl
+        · rfl
+
+@[simp] theorem giveBack_ch (s : St) (n : Nat) : (giveBack s n).ch = s.ch := by
+  unfold giveBack; rw [release_ch]
+
+@[simp] theorem acquire_ch (s : St) (i w : Nat) : (acquire s i w).2.ch = s.ch := by
+  unfold acquire; split <;> rfl
+
+/-- a channel made by `channel()` never turns into the "no TLS" state … -/
+def NotEmpty (s : St) : Prop := s.ch ≠ .empty
+
+theorem writePhase_spec (s : St) (i : Nat) (h : NotEmpty s) :
+    (writePhase s i).1 ≠ .none ∧ NotEmpty (writePhase s i).2 := by
+  unfold writePhase NotEmpty at *
+  cases hc : s.ch with
+  | pending sent => cases sent <;> simp [hc]
+  | received => simp [hc]
+  | empty => exact absurd hc h
+
+theorem readPhase_spec (s : St) (i : Nat) (h : NotEmpty s) :
+    (readPhase s i).1 ≠ .none ∧ NotEmpty (readPhase s i).2 := by
+  unfold readPhase
+  cases hc : s.ch with
+  | received => simp [NotEmpty, hc]
+  | empty => exact absurd hc h
+  | pending sent =>
+    simp only []
+    have h1 : NotEmpty (acquire (giveBack s 1) i maxP).2 := by simp [NotEmpty, hc]
+    split
+    · exact writePhase_spec _ i h1
+    · exact ⟨by simp, by simpa [NotEmpty] using h1⟩
+
+theorem step_spec (s : St) (op : Op) (h : NotEmpty s) : (step s op).1 ≠ .none ∧ NotEmpty (step s op).2 := by
+  cases op with
+  | new i => exact ⟨by simp [step], h⟩
+  | send =>
+    refine ⟨by simp [step], ?_⟩
+    unfold step NotEmpty at *
+    simp only []
+    split <;> simp_all
+  | poll i =>
+    simp only [step]
+    cases hp : s.phase i with
+    | fresh =>
+      simp only []
+      have h1 : NotEmpty (acquire s i 1).2 := by simpa [NotEmpty] using h
+      generalize acquire s i 1 = a at h1
+      obtain ⟨ok, s1⟩ := a
+      simp only [] at h1 ⊢
+      split
+      · exact readPhase_spec _ i h1
+      · exact ⟨by simp, by simpa [NotEmpty] using h1⟩
+    | waitRead => exact ⟨by simp, h⟩
+    | waitWrite => exact ⟨by simp, h⟩
+    | grantedRead => exact readPhase_spec s i h
+    | grantedWrite => exact writePhase_spec s i h
+    | holding => exact writePhase_spec s i h
+    | done => exact ⟨by simp, h⟩
+  | drop i =>
+    simp only [step]
+    cases hp : s.phase i <;> exact ⟨by simp, by simpa [NotEmpty] using h⟩
+
+/-- **C20 (every request of a TLS connection is validated).** Whatever the order in which requests ask for the
+    connection's TLS information, are polled, are cancelled, and the acceptor sends it: no request is ever answered
+    "this connection has no TLS" - so none reaches `ValidateSNI` looking like a plain-text request. -/
+theorem C20_tls_request_never_told_plain (ops : List Op) : Res.none ∉ (run initTls ops).1 := by
+  have key : ∀ (ops : List Op) (s : St), NotEmpty s → Res.none ∉ (run s ops).1 := by
+    intro ops
+    induction ops with
+    | nil => intro s _; simp [run]
+    | cons op ops ih =>
+      intro s h
+      have hs := step_spec s op h
+      simp only [run, List.mem_cons, not_or]
+      exact ⟨fun e => hs.1 e.symm, ih _ hs.2⟩
+  exact key ops initTls (by simp [NotEmpty, initTls])
+
+/-- Once the acceptor has sent the information, the request that holds the lock gets it at its next poll. -/
+theorem C20_holder_gets_info (s : St) (i : Nat) (hp : s.phase i = .holding) (hc : s.ch = .pending true) :
+    (step s (.poll i)).1 = .info := by
+  simp [step, hp, writePhase, hc]
+
+/-- … and whoever asks after it has been received gets it at once, if the lock is free. -/
+theorem C20_late_request_gets_info (s : St) (i : Nat) (hp : s.phase i = .fresh) (hc : s.ch = .received) (hf : 1 ≤ s.free) :
+    (step s (.poll i)).1 = .info := by
+  simp [step, hp, acquire, hf, readPhase, hc]
+
+/-- non-vacuity: two requests ask before the handshake is over, one is cancelled while it holds the lock, the
+    information arrives, everybody else learns it -/
+example : (run initTls [.new 0, .poll 0, .new 1, .poll 1, .drop 0, .send, .poll 1, .new 2, .poll 2]).1 =
+    [.finished, .pending, .finished, .pending, .finished, .finished, .info, .finished, .info] := by decide
+
+end Hd.TlsInfo
